@@ -58,7 +58,9 @@ def run(chk):
     if "2" not in parts:
         plans = []
     for (n, clients, maxfail, runs, steps) in plans:
-        args = "fifo=1,clients=%d,maxfail=%d,fail=%d,buffer=3,strings=2" % (clients, maxfail, 1 if maxfail else 0)
+        # every second plan offers requests on one key only, so that Puts overwrite each other on every replica
+        hot = 1 if (len(plans) == 1 or plans.index((n, clients, maxfail, runs, steps)) % 2 == 1) else 0
+        args = "fifo=1,clients=%d,maxfail=%d,fail=%d,buffer=3,strings=2,hotkey=%d" % (clients, maxfail, 1 if maxfail else 0, hot)
         out = S.drive(chk, drv, "raftkvs", n, "biased", runs, steps, args=args, tag="-c%d" % clients)
         rs = T.load_steps(out)
         S.validate_executions(chk, "C08", work, "raftkvs", text, rs, consts(n, clients, maxfail > 0, maxfail, 3), INV,
@@ -96,7 +98,7 @@ def run(chk):
         wplans = []
     wstats = []
     for (n, clients, maxfail, runs, steps) in wplans:
-        args = "fifo=1,clients=%d,maxfail=%d,fail=%d,buffer=3,strings=2" % (clients, maxfail, 1 if maxfail else 0)
+        args = "fifo=1,clients=%d,maxfail=%d,fail=%d,buffer=3,strings=2,hotkey=1" % (clients, maxfail, 1 if maxfail else 0)
         edges = 40000
         out = S.drive(chk, drv, "raftkvs", n, "walk-biased", runs, steps, args=args, tag="-ahead", fanout=edges)
         cs = consts(n, clients, maxfail > 0, maxfail, 3)
